@@ -302,7 +302,43 @@ func pmCheckReg(p *edwards25519.Point, want ref.Pt) *core.Fail {
 	return nil
 }
 
-// expectPanics reports whether op on state s reads an uninitialised register.
+// pmMisuse runs an operation that reads an uninitialised register. Whether it
+// panics is C15's business; this machine only insists that IF it returns
+// normally - a "successful public operation" in the words of C12 - the
+// receiver does not become an invalid point. No successor state is produced
+// either way (the model does not say what such a call should compute).
+func pmMisuse(op string, recv *edwards25519.Point, call func()) (ok bool, fail *core.Fail) {
+	panicked := func() (p bool) {
+		defer func() {
+			if recover() != nil {
+				p = true
+			}
+		}()
+		call()
+		return false
+	}()
+	if panicked {
+		return false, nil
+	}
+	var X, Y, Z, T *big.Int
+	unusable := func() (u bool) {
+		defer func() {
+			if recover() != nil {
+				u = true // still refuses to be read: not a Point anybody can use
+			}
+		}()
+		_, X, Y, Z, T, _ = alpha.PointModel(recv)
+		return false
+	}()
+	if unusable {
+		return false, nil
+	}
+	if Z.Sign() == 0 || !ref.ExtendedValid(X, Y, Z, T) {
+		return false, core.Failf("%s returned normally although it read an uninitialised Point, and left the receiver holding an invalid point that later operations accept (X=%x Y=%x Z=%x T=%x)", op, X, Y, Z, T)
+	}
+	return false, nil
+}
+
 func pmApply(s *pState, op string) (bool, *core.Fail) {
 	f := strings.Fields(op)
 	name := f[0]
@@ -382,7 +418,13 @@ func pmApply(s *pState, op string) (bool, *core.Fail) {
 	case "Add", "Subtract":
 		a, b := atoi(f[2]), atoi(f[3])
 		if !need(a, b) {
-			return false, nil
+			return pmMisuse(op, recv, func() {
+				if name == "Add" {
+					recv.Add(&s.P[a], &s.P[b])
+				} else {
+					recv.Subtract(&s.P[a], &s.P[b])
+				}
+			})
 		}
 		if name == "Add" {
 			ret, want = recv.Add(&s.P[a], &s.P[b]), ref.Add(s.M[a], s.M[b])
@@ -392,13 +434,13 @@ func pmApply(s *pState, op string) (bool, *core.Fail) {
 	case "Negate":
 		a := atoi(f[2])
 		if !need(a) {
-			return false, nil
+			return pmMisuse(op, recv, func() { recv.Negate(&s.P[a]) })
 		}
 		ret, want = recv.Negate(&s.P[a]), ref.Neg(s.M[a])
 	case "MultByCofactor":
 		a := atoi(f[2])
 		if !need(a) {
-			return false, nil
+			return pmMisuse(op, recv, func() { recv.MultByCofactor(&s.P[a]) })
 		}
 		ret, want = recv.MultByCofactor(&s.P[a]), ref.Mul(big.NewInt(8), s.M[a])
 	case "ScalarBaseMult":
@@ -407,13 +449,15 @@ func pmApply(s *pState, op string) (bool, *core.Fail) {
 	case "ScalarMult":
 		k, a := atoi(f[2]), atoi(f[3])
 		if !need(a) {
-			return false, nil
+			return pmMisuse(op, recv, func() { recv.ScalarMult(pmScalarImplOnce()[k], &s.P[a]) })
 		}
 		ret, want = recv.ScalarMult(pmScalarImplOnce()[k], &s.P[a]), ref.Mul(pmScalarVals[k], s.M[a])
 	case "VarTimeDouble":
 		k, a, k2 := atoi(f[2]), atoi(f[3]), atoi(f[4])
 		if !need(a) {
-			return false, nil
+			return pmMisuse(op, recv, func() {
+				recv.VarTimeDoubleScalarBaseMult(pmScalarImplOnce()[k], &s.P[a], pmScalarImplOnce()[k2])
+			})
 		}
 		ret = recv.VarTimeDoubleScalarBaseMult(pmScalarImplOnce()[k], &s.P[a], pmScalarImplOnce()[k2])
 		want = ref.Add(ref.Mul(pmScalarVals[k], s.M[a]), ref.Mul(pmScalarVals[k2], ref.Base()))
@@ -422,14 +466,25 @@ func pmApply(s *pState, op string) (bool, *core.Fail) {
 		var sc []*edwards25519.Scalar
 		var pts []*edwards25519.Point
 		want = ref.Identity()
+		misuse := false
 		for i := 0; i < n; i++ {
 			k, a := atoi(f[3+2*i]), atoi(f[4+2*i])
-			if !need(a) {
-				return false, nil
-			}
 			sc = append(sc, pmScalarImplOnce()[k])
 			pts = append(pts, &s.P[a])
+			if !need(a) {
+				misuse = true
+				continue
+			}
 			want = ref.Add(want, ref.Mul(pmScalarVals[k], s.M[a]))
+		}
+		if misuse {
+			return pmMisuse(op, recv, func() {
+				if name == "MSM" {
+					recv.MultiScalarMult(sc, pts)
+				} else {
+					recv.VarTimeMultiScalarMult(sc, pts)
+				}
+			})
 		}
 		if name == "MSM" {
 			ret = recv.MultiScalarMult(sc, pts)
